@@ -660,6 +660,15 @@ def step_init_q_case(gridvals, n, cellname):
     expr = "check_step_init_Q %s %s %s" % (clist([cq(v) for v in grid]), cnat(n), copt(idx, lambda L: clist([cnatl(s) for s in L])))
     fail, sig = None, ""
     if idx is not None:
+        # documented refusals, stated independently: more steps than nodes, or a grid that is not regular (beyond the
+        # tolerance of numpy's default allclose, recomputed here in exact rationals)
+        fr = [frac(v) for v in grid]
+        diffs = [b - a for a, b in zip(fr, fr[1:])]
+        irregular = len(fr) >= 2 and any(abs(dd - diffs[0]) > Fraction(1, 10 ** 8) + Fraction(1, 10 ** 5) * abs(diffs[0]) for dd in diffs)
+        if n > len(fr) or irregular:
+            fail = "StepExpansion accepts %s (grid %s, n_steps %d)" % ("more steps than nodes" if n > len(fr) else "a grid that is not regular", [float(v) for v in grid], n)
+            sig = "StepExpansion._check_grid_setup|accepted"
+    if idx is not None and not fail:
         d = {"kind": "step", "grid": hexgrid(grid), "n_steps": n, "proj": "mean"}
         sd = step_defect(d)
         if sd:
@@ -713,6 +722,8 @@ def samples_case(d, arr, is_par, is_vec, ops):
                     if yi is None or not same(np.asarray(R0.samples)[..., i].reshape(doc_fun_shape(d)), np.asarray(yi).reshape(doc_fun_shape(d)), ex):
                         fail = "funvals sample %d is not par2fun of parameter sample %d" % (i, i)
                         break
+                if fail is None and bool(R0.is_vec) != (len(doc_fun_shape(d)) == 1) and not has_singleton(d, "par2fun") and 1 not in doc_fun_shape(d):
+                    fail = "funvals of a geometry with function shape %s is flagged is_vec=%s" % (doc_fun_shape(d), R0.is_vec)
                 if fail is None and np.asarray(R0.samples).shape != tuple(doc_fun_shape(d)) + (arr.shape[-1],):
                     fail = "funvals samples have shape %s, expected %s" % (np.asarray(R0.samples).shape, tuple(doc_fun_shape(d)) + (arr.shape[-1],))
             if fail is None and ops[-1] == "parameters" and has_inv:
@@ -1167,7 +1178,7 @@ def run(ctx):
         cases.append(cuqiarray_case(d, rand_arr(rng, tuple(fs)), False, True))
         cases.append(cuqiarray_case(d, rand_arr(rng, tuple(fs)), False, False))
         cases.append(cuqiarray_case(d, rand_arr(rng, tuple(fs) + (2,)), False, True))
-    ctx.note("StepExpansion.__init__ in this tree: %s" % ("node-number partition (fixes/C13_step_partition.diff applied)" if step_fixed()
+    ctx.note("StepExpansion.__init__ in this tree: %s" % ("node-number partition (repaired: fixes/C13_step_partition_minimal.diff or C13_step_partition.diff)" if step_fixed()
                                                          else "interval tests on float coordinates (unrepaired)"))
     cases += eq_cases(ctx, geoms)
     cases = spread(cases)
